@@ -115,4 +115,59 @@ CHECKS = {
         "assumptions": ["Go race detector as the happens-before oracle (GORACE suppress_equal_stacks=0 so that a replay in the same process reports again)", "block_sync.go's peer loop is not run here (it needs a p2p connection); its shared append is covered by the chainsim sync runs only functionally",
                         "subscribers are well-behaved (keep receiving until their channel is closed)"],
     },
+    "C01": {
+        "profile": "chainsim", "pkg": "chain", "test": "TestC01", "level": "exploration", "env": {"VERIF_PROP": "C01"},
+        "quick": {"workers": 8, "checks": 150}, "thorough": {"workers": 14, "checks": 6000},
+        "timeout": {"quick": "25m", "thorough": "6h"}, "shrinktime": "90s",
+        "rule": "chainsim: per run 2-5 whole nodes and 4-9 validators (drawn BFT weights incl. stand-by generators, batch size, block time 2/5/10 s, thresholds, block cache size, event retention), a drawn schedule of up to 3 validator-set/threshold changes, 10-120 blocks of simulated time; drawn faults: gossip latency 1-3200 ms, loss 0/5/20 %, duplication 0/10 %, up to 3 partitions with heal, up to 3 crash+restart (graceful, kill, power loss) of nodes, clock skew up to 1.5 s, sync RPC timeouts/errors/truncation/bit flips. Oracle: one block id per height across everything any view (node, over its whole life) reports as final (height <= its precommitted height); verdicts only while every honest validator's signed headers are pairwise non-contradicting (checked from the generator DBs) and thresholds are floor(2W/3)+1. distinct = distinct (configuration, end state)",
+        "real": ["pkg/consensus (executer, verify, certificate, abi caller)", "pkg/consensus/liskbft, forkchoice, contradiction, validator, sync, certificate", "pkg/blockchain", "pkg/generator", "pkg/txpool", "pkg/framework ABI handler + pkg/statemachine", "pkg/db, diffdb, batchdb, trie/smt, trie/rmt, pkg/codec, pkg/crypto (Ed25519, BLS via blst)", "pebble on the simulated disk"],
+        "stub": ["pkg/p2p (stub: simulated gossip flooding with validators, synchronous sync RPC with drawn faults)", "libp2p/gossipsub", "pkg/engine wiring, RPC server, router (the harness wires the same objects; the Start loops of executer/generator/txpool are replaced by simulator events calling their branches)", "application module: simmod", "ABI transport: in-process loopback through the labi codecs", "clock, randomness, request deadlines"],
+        "distinct_measure": "FNV-64 of (drawn configuration, final tips / BFT heights / finalized heights of all nodes)",
+        "assumptions": ["a node processes one event at a time (its consensus loop is single-threaded in production too); concurrency inside a node is the business of the schedsim checks",
+                        "sync RPCs of one processing step see a frozen network (the remote state does not change during the step)", "reference models: DESIGN Appendix A"],
+    },
+    "C02": {
+        "profile": "chainsim", "pkg": "chain", "test": "TestC02", "level": "exploration", "env": {"VERIF_PROP": "C02"},
+        "quick": {"workers": 8, "checks": 150}, "thorough": {"workers": 14, "checks": 6000},
+        "timeout": {"quick": "25m", "thorough": "6h"}, "shrinktime": "90s",
+        "rule": 'chainsim: per run 2-5 whole nodes and 4-9 validators (drawn BFT weights incl. stand-by generators, batch size, block time 2/5/10 s, thresholds, block cache size, event retention), a drawn schedule of up to 3 validator-set/threshold changes, 10-120 blocks of simulated time; drawn faults: gossip latency 1-3200 ms, loss 0/5/20 %, duplication 0/10 %, up to 3 partitions with heal, up to 3 crash+restart (graceful, kill, power loss) of nodes, clock skew up to 1.5 s, sync RPC timeouts/errors/truncation/bit flips. Oracle: after every block applied on every node (and after restarts) the three BFT heights, per-block prevote/precommit weights, per-validator vote info, parameters for every window height and the stored parameter keys equal an independent persistent LIP-0058 reference evaluated on the fork tree; nodes with equal tips agree; bounded finality in fault-free runs',
+        "real": ["pkg/consensus (executer, verify, certificate, abi caller)", "pkg/consensus/liskbft, forkchoice, contradiction, validator, sync, certificate", "pkg/blockchain", "pkg/generator", "pkg/txpool", "pkg/framework ABI handler + pkg/statemachine", "pkg/db, diffdb, batchdb, trie/smt, trie/rmt, pkg/codec, pkg/crypto (Ed25519, BLS via blst)", "pebble on the simulated disk"],
+        "stub": ["pkg/p2p (stub: simulated gossip flooding with validators, synchronous sync RPC with drawn faults)", "libp2p/gossipsub", "pkg/engine wiring, RPC server, router (the harness wires the same objects; the Start loops of executer/generator/txpool are replaced by simulator events calling their branches)", "application module: simmod", "ABI transport: in-process loopback through the labi codecs", "clock, randomness, request deadlines"],
+        "distinct_measure": "FNV-64 of (drawn configuration, final tips / BFT heights / finalized heights of all nodes)",
+        "assumptions": ["a node processes one event at a time (its consensus loop is single-threaded in production too); concurrency inside a node is the business of the schedsim checks",
+                        "sync RPCs of one processing step see a frozen network (the remote state does not change during the step)", "reference models: DESIGN Appendix A"],
+    },
+    "C04": {
+        "profile": "chainsim", "pkg": "chain", "test": "TestC04", "level": "exploration", "env": {"VERIF_PROP": "C04"},
+        "quick": {"workers": 8, "checks": 150}, "thorough": {"workers": 14, "checks": 6000},
+        "timeout": {"quick": "25m", "thorough": "6h"}, "shrinktime": "90s",
+        "rule": 'chainsim: per run 2-5 whole nodes and 4-9 validators (drawn BFT weights incl. stand-by generators, batch size, block time 2/5/10 s, thresholds, block cache size, event retention), a drawn schedule of up to 3 validator-set/threshold changes, 10-120 blocks of simulated time; drawn faults: gossip latency 1-3200 ms, loss 0/5/20 %, duplication 0/10 %, up to 3 partitions with heal, up to 3 crash+restart (graceful, kill, power loss) of nodes, clock skew up to 1.5 s, sync RPC timeouts/errors/truncation/bit flips. Oracle: with every applied block the stored finalized height equals max(previous, precommitted height after the block) in that database state; it never decreases across reorgs, syncs and restarts; block ids at finalized heights never change; one finalize event per raise',
+        "real": ["pkg/consensus (executer, verify, certificate, abi caller)", "pkg/consensus/liskbft, forkchoice, contradiction, validator, sync, certificate", "pkg/blockchain", "pkg/generator", "pkg/txpool", "pkg/framework ABI handler + pkg/statemachine", "pkg/db, diffdb, batchdb, trie/smt, trie/rmt, pkg/codec, pkg/crypto (Ed25519, BLS via blst)", "pebble on the simulated disk"],
+        "stub": ["pkg/p2p (stub: simulated gossip flooding with validators, synchronous sync RPC with drawn faults)", "libp2p/gossipsub", "pkg/engine wiring, RPC server, router (the harness wires the same objects; the Start loops of executer/generator/txpool are replaced by simulator events calling their branches)", "application module: simmod", "ABI transport: in-process loopback through the labi codecs", "clock, randomness, request deadlines"],
+        "distinct_measure": "FNV-64 of (drawn configuration, final tips / BFT heights / finalized heights of all nodes)",
+        "assumptions": ["a node processes one event at a time (its consensus loop is single-threaded in production too); concurrency inside a node is the business of the schedsim checks",
+                        "sync RPCs of one processing step see a frozen network (the remote state does not change during the step)", "reference models: DESIGN Appendix A"],
+    },
+    "C05": {
+        "profile": "chainsim", "pkg": "chain", "test": "TestC05", "level": "exploration", "env": {"VERIF_PROP": "C05"},
+        "quick": {"workers": 8, "checks": 150}, "thorough": {"workers": 14, "checks": 6000},
+        "timeout": {"quick": "25m", "thorough": "6h"}, "shrinktime": "90s",
+        "rule": 'chainsim: per run 2-5 whole nodes and 4-9 validators (drawn BFT weights incl. stand-by generators, batch size, block time 2/5/10 s, thresholds, block cache size, event retention), a drawn schedule of up to 3 validator-set/threshold changes, 10-120 blocks of simulated time; drawn faults: gossip latency 1-3200 ms, loss 0/5/20 %, duplication 0/10 %, up to 3 partitions with heal, up to 3 crash+restart (graceful, kill, power loss) of nodes, clock skew up to 1.5 s, sync RPC timeouts/errors/truncation/bit flips. Oracle: right after every block deletion any node performs (tie break, sync, restore) its blockchain DB dump equals the dump taken before that block was applied, except the monotone finalized marker, pruned diffs/events and the requested temp block; cached tip = parent',
+        "real": ["pkg/consensus (executer, verify, certificate, abi caller)", "pkg/consensus/liskbft, forkchoice, contradiction, validator, sync, certificate", "pkg/blockchain", "pkg/generator", "pkg/txpool", "pkg/framework ABI handler + pkg/statemachine", "pkg/db, diffdb, batchdb, trie/smt, trie/rmt, pkg/codec, pkg/crypto (Ed25519, BLS via blst)", "pebble on the simulated disk"],
+        "stub": ["pkg/p2p (stub: simulated gossip flooding with validators, synchronous sync RPC with drawn faults)", "libp2p/gossipsub", "pkg/engine wiring, RPC server, router (the harness wires the same objects; the Start loops of executer/generator/txpool are replaced by simulator events calling their branches)", "application module: simmod", "ABI transport: in-process loopback through the labi codecs", "clock, randomness, request deadlines"],
+        "distinct_measure": "FNV-64 of (drawn configuration, final tips / BFT heights / finalized heights of all nodes)",
+        "assumptions": ["a node processes one event at a time (its consensus loop is single-threaded in production too); concurrency inside a node is the business of the schedsim checks",
+                        "sync RPCs of one processing step see a frozen network (the remote state does not change during the step)", "reference models: DESIGN Appendix A"],
+    },
+    "C15": {
+        "profile": "chainsim", "pkg": "chain", "test": "TestC15", "level": "exploration", "env": {"VERIF_PROP": "C15"},
+        "quick": {"workers": 8, "checks": 150}, "thorough": {"workers": 14, "checks": 6000},
+        "timeout": {"quick": "25m", "thorough": "6h"}, "shrinktime": "90s",
+        "rule": "chainsim: per run 2-5 whole nodes and 4-9 validators (drawn BFT weights incl. stand-by generators, batch size, block time 2/5/10 s, thresholds, block cache size, event retention), a drawn schedule of up to 3 validator-set/threshold changes, 10-120 blocks of simulated time; drawn faults: gossip latency 1-3200 ms, loss 0/5/20 %, duplication 0/10 %, up to 3 partitions with heal, up to 3 crash+restart (graceful, kill, power loss) of nodes, clock skew up to 1.5 s, sync RPC timeouts/errors/truncation/bit flips. Oracle: every block a node's generator hands on is accepted by that node's own processing in the same step; all headers a validator key ever signed (from its generator DB, across chain switches, syncs and restarts) are pairwise non-contradicting by the reference predicate",
+        "real": ["pkg/consensus (executer, verify, certificate, abi caller)", "pkg/consensus/liskbft, forkchoice, contradiction, validator, sync, certificate", "pkg/blockchain", "pkg/generator", "pkg/txpool", "pkg/framework ABI handler + pkg/statemachine", "pkg/db, diffdb, batchdb, trie/smt, trie/rmt, pkg/codec, pkg/crypto (Ed25519, BLS via blst)", "pebble on the simulated disk"],
+        "stub": ["pkg/p2p (stub: simulated gossip flooding with validators, synchronous sync RPC with drawn faults)", "libp2p/gossipsub", "pkg/engine wiring, RPC server, router (the harness wires the same objects; the Start loops of executer/generator/txpool are replaced by simulator events calling their branches)", "application module: simmod", "ABI transport: in-process loopback through the labi codecs", "clock, randomness, request deadlines"],
+        "distinct_measure": "FNV-64 of (drawn configuration, final tips / BFT heights / finalized heights of all nodes)",
+        "assumptions": ["a node processes one event at a time (its consensus loop is single-threaded in production too); concurrency inside a node is the business of the schedsim checks",
+                        "sync RPCs of one processing step see a frozen network (the remote state does not change during the step)", "reference models: DESIGN Appendix A"],
+    },
 }
